@@ -466,6 +466,46 @@ func genC04(r *hlib.Rng, n int) In {
 	return in
 }
 
+// directed C04 history: the reorg starts exactly at the block of the newest L1 info leaf, and the new fork carries no leaf up to
+// the blocks the queries ask about: "latest info until block b" must be the newest SURVIVING leaf for every b
+func genC04AtNewestLeaf(r *hlib.Rng) In {
+	h := newHist(r)
+	in := In{Prop: "c04"}
+	hasUpd := func(op Op) bool {
+		for _, l := range op.Logs {
+			if l.T == "upd" {
+				return true
+			}
+		}
+		return false
+	}
+	leaves := 0
+	for i := 0; i < 14; i++ {
+		op := h.block(4)
+		in.Ops = append(in.Ops, op)
+		if hasUpd(op) {
+			leaves++
+			if leaves >= 2 {
+				break
+			}
+		}
+	}
+	last := in.Ops[len(in.Ops)-1]
+	in.Ops = append(in.Ops, snapOp(), Op{K: "reorg", B: last.Num})
+	live := liveBlocks(in.Ops)
+	h.st = stateOf(live)
+	h.num = last.Num - 1
+	for i := 0; i < 2; i++ { // blocks of the new fork without any event
+		op := h.header()
+		h.st.apply(op)
+		in.Ops = append(in.Ops, op)
+	}
+	in.Ops = append(in.Ops, snapOp())
+	in.Ops = append(in.Ops, h.block(3), snapOp())
+	in.TwinOps = twinOf(in.Ops)
+	return in
+}
+
 var faultKinds = []string{"block", "leaf", "l1root", "l1rht", "rroot", "rrht", "verify", "init"}
 
 func genC07(r *hlib.Rng, n int) In {
@@ -557,6 +597,9 @@ func generate(prop string, f *hlib.Flags) []In {
 				ins = append(ins, genC11(r, 3+r.Intn(10), 0))
 			}
 		case "c04":
+			if i == 0 {
+				ins = append(ins, genC04AtNewestLeaf(hlib.NewRng(f.Seed^0xc04c)))
+			}
 			ins = append(ins, genC04(r, 6))
 		case "c07":
 			ins = append(ins, genC07(r, 3+r.Intn(6)))
